@@ -10,5 +10,4 @@ pub mod inject;
 pub mod spec;
 #[cfg(kani)]
 pub mod stubs;
-#[cfg(kani)]
 pub mod util;
